@@ -4,8 +4,9 @@
   the ElementPath selectors).  Lemmas: HvProofs/Configs.lean.
 -/
 import HvProofs.Configs
+import HvProofs.ConfigsOvf
 namespace Hv.C18
-open Hv Hv.XPath Hv.Configs
+open Hv Hv.XPath Hv.Configs Hv.ConfigsSpec
 
 /-! ### extracted literals = the specification's values -/
 
@@ -267,6 +268,75 @@ example : vboxDisks cfg vboxCfg (.node "{http://www.virtualbox.org/}VirtualBox".
     .node "{http://www.virtualbox.org/}DVDImages".toList [] [
       .node "{http://www.virtualbox.org/}Image".toList [("location".toList, "x.iso".toList)] [] none none] none none] none none)
     = some ["base.vdi".toList, "child.vdi".toList, "grandchild.vdi".toList, "inner.vdi".toList] := by decide +kernel
+
+/-! ### OVF -/
+
+/-- **ovf_disks_exact**: for every element tree that is a well-formed OVF envelope (`ovfWfb`, a decidable predicate:
+    every `References/File` has `ovf:id` and `ovf:href` and the file ids are pairwise distinct; every
+    `DiskSection/Disk` has `ovf:diskId` and an `ovf:fileRef` naming a `File`, and the disk ids are pairwise distinct —
+    *a disk id may coincide with a file id*; every `VirtualSystem/VirtualHardwareSection/Item` having a
+    `rasd:ResourceType` child with text `17` has a first `rasd:HostResource` child with text `[ovf:]/disk/<id>` naming a
+    `Disk` or `[ovf:]/file/<id>` naming a `File`, `<id>` without `/`), `list(OVF(fh).disks())` does not raise and is, in
+    document order of the hard-disk items, the href of the file backing each of them (`ovfSpec`: item → *the* `Disk`
+    with that `diskId` → *the* `File` with that disk's `fileRef` → href, resp. item → *the* `File` with that id → href;
+    the two id spaces are searched separately, so a `Disk` whose id equals another `File`'s id shadows nothing).
+    Items of any other resource type (CD-ROM 15/16, floppy 14, controllers 5/6/20, …) contribute nothing. -/
+theorem ovf_disks_exact (root : Xml) (hwf : ovfWfb root = true) :
+    ovfDisks ovfCfg root = some ((ovfSpec root).map some) := ovfDisks_eq_spec root hwf
+
+/-- **ovf_one_entry_per_disk_item**: on a well-formed envelope the result has exactly one entry per hard-disk item. -/
+theorem ovf_one_entry_per_disk_item (root : Xml) (hwf : ovfWfb root = true) :
+    ∃ r, ovfDisks ovfCfg root = some r ∧ r.length = (driveItems root).length := by
+  refine ⟨_, ovf_disks_exact root hwf, ?_⟩
+  have w := ovfWF_of_wfb root hwf
+  rw [List.length_map]
+  unfold ovfSpec
+  rw [filterMap_eq_map_of_some _ (fun it => (itemHref (fileEls root) (diskEls root) it).getD []) _ (fun it hit => by
+    obtain ⟨href, _, h2⟩ := resolve_item root w it hit
+    simp only [h2, Option.getD_some]), List.length_map]
+
+/-- **ovf_reported_iff_disk_item**: a name is reported iff it is the backing file of some hard-disk item; an `Item`
+    none of whose `rasd:ResourceType` children has the text `17` is never looked at. -/
+theorem ovf_reported_iff_disk_item (root : Xml) (hwf : ovfWfb root = true) (href : Str) :
+    (∃ r, ovfDisks ovfCfg root = some r ∧ some href ∈ r) ↔
+      ∃ it ∈ itemEls root, isDiskItem it = true ∧ itemHref (fileEls root) (diskEls root) it = some href := by
+  rw [ovf_disks_exact root hwf]
+  constructor
+  · rintro ⟨r, hr, hm⟩
+    cases hr
+    obtain ⟨h', hm', e⟩ := List.mem_map.1 hm
+    cases e
+    obtain ⟨it, hit, hh⟩ := List.mem_filterMap.1 hm'
+    have := List.mem_filter.1 hit
+    exact ⟨it, this.1, this.2, hh⟩
+  · rintro ⟨it, hit, hd, hh⟩
+    exact ⟨_, rfl, List.mem_map.2 ⟨href, List.mem_filterMap.2 ⟨it, List.mem_filter.2 ⟨hit, hd⟩, hh⟩, rfl⟩⟩
+
+private def oel (tag : Str) (attrs : List (Str × String)) (kids : List Xml) : Xml :=
+  .node tag (attrs.map (fun kv => (kv.1, kv.2.toList))) kids none none
+private def otext (tag : Str) (text : String) : Xml := .node tag [] [] (some text.toList) none
+private def oitem (rt host : String) : Xml := oel tItem [] [otext tResourceType rt, otext tHostResource host]
+
+/-- two files, two disks with **crossed ids** (disk `f1` is backed by file `f2`, disk `f2` by file `f1`), hard-disk items in
+    both `HostResource` forms, a CD-ROM on a third file, a controller without host resource, a decoy `17` in another field -/
+private def crossed : Xml :=
+  oel "Envelope".toList [] [
+    oel tReferences [] [oel tFile [(idAttr, "f1"), (hrefAttr, "a.vmdk")] [], oel tFile [(idAttr, "f2"), (hrefAttr, "b.vmdk")] [],
+                        oel tFile [(hrefAttr, "cd.iso"), (idAttr, "f3")] []],
+    oel tDiskSection [] [oel tDisk [(diskIdAttr, "f2"), (fileRefAttr, "f1")] [], oel tDisk [(diskIdAttr, "f1"), (fileRefAttr, "f2")] []],
+    oel tVirtualSystem [] [oel tVirtualHardwareSection [] [
+      oel tItem [] [otext tResourceType "6", otext "ElementName".toList "17"],
+      oitem "17" "ovf:/disk/f1", oitem "15" "ovf:/file/f3", oitem "17" "/file/f1", oitem "17" "/disk/f2", oitem "17" "ovf:/file/f2"]]]
+
+/-- non-vacuity of `ovf_disks_exact`, with a `diskId` equal to the id of a `File` that backs a *different* disk:
+    the envelope is well-formed and its specification value is the four backing files in document order -/
+theorem ovf_crossed_ids_wellformed :
+    ovfWfb crossed = true ∧ ovfSpec crossed = ["b.vmdk".toList, "a.vmdk".toList, "a.vmdk".toList, "b.vmdk".toList] := by
+  decide +kernel
+
+/-- … hence (by the theorem, not by evaluation) the model of `OVF.disks` returns them -/
+example : ovfDisks ovfCfg crossed = some [some "b.vmdk".toList, some "a.vmdk".toList, some "a.vmdk".toList, some "b.vmdk".toList] := by
+  rw [ovf_disks_exact crossed ovf_crossed_ids_wellformed.1, ovf_crossed_ids_wellformed.2]; rfl
 
 /-! ### Parallels PVS -/
 
